@@ -1004,11 +1004,36 @@ let pred_c14 line spec ad flags steps impl =
 
 (* C12: extracted c12_pred on the implementation's dumps: full load, filtered
    load, flag; plus the save guard (a filtered enforcer cannot overwrite the store) *)
-let pred_c12 steps impl =
+(* a raw policy text (T@ / Ft@ adapter): the rows the Gallina file parser gives for it, and whether two store dumps
+   (rules = sec :: ptype :: fields) hold exactly those rows, type by type, in file order *)
+let text_rows_of_adapter (ad : string) : string list list option =
+  match String.split_on_char '@' ad with
+  | [("T" | "Ft"); t] -> Some (List.map (List.map enc) (parsed_lines (dec t)))
+  | _ -> None
+let dumps_are_rows (dp : string) (dg : string) (rows : string list list) : bool =
+  let dump = parse_rules_out dp @ parse_rules_out dg in
+  let types = uniq (List.filter_map (function t :: _ -> Some t | [] -> None) rows @ List.filter_map (function _ :: t :: _ -> Some t | _ -> None) dump) in
+  List.for_all (fun t ->
+      List.filter_map (function _ :: t' :: f when t' = t -> Some f | _ -> None) dump
+      = List.filter_map (function t' :: f when t' = t -> Some f | _ -> None) rows) types
+
+let pred_c12 ad steps impl =
   match impl_results impl with
   | Some outs ->
     let sts = Array.of_list (steps_list steps) and os = Array.of_list outs in
     if Array.length sts <> Array.length os then "0"
+    else if Array.length sts = 11 && sts.(7) = "LD" && text_rows_of_adapter ad <> None then begin
+      (* raw text: the full load is exactly the text's rows; the filtered load is the filter applied to them; a full
+         reload restores them and resets the mark *)
+      match text_rows_of_adapter ad, String.split_on_char ':' sts.(3) with
+      | Some rows, [_; fp; fg] ->
+        if os.(3) = "P" then "-" else
+          b01 (dumps_are_rows os.(0) os.(1) rows && os.(2) = "0"
+               && c12_pred (rule_of_out fp) (rule_of_out fg) (rules_of_out os.(0)) (rules_of_out os.(1))
+                 (rules_of_out os.(4)) (rules_of_out os.(5)) (os.(6) = "1")
+               && os.(8) = os.(0) && os.(9) = os.(1) && os.(10) = "0")
+      | _ -> "0"
+    end
     else if Array.length sts = 9 && String.length sts.(3) > 3 && String.sub sts.(3) 0 3 = "LF:" then begin
       match String.split_on_char ':' sts.(3) with
       | [_; fp; fg] ->
@@ -1142,7 +1167,13 @@ let pred_eng line spec ad flags steps impl =
   | "C04" -> b01 (try pred_c04 line spec ad flags steps impl with Failure _ -> false)
   | "C07" -> b01 (pred_c07 steps impl)
   | "C18" -> b01 (pred_c18 steps impl)
-  | "C12" -> pred_c12 steps impl
+  | "C12" -> pred_c12 ad steps impl
+  | "C16" ->
+    (* a whole policy text through an adapter: the loaded stores are exactly the rows of the text, also after a reload *)
+    (match text_rows_of_adapter ad, impl_results impl with
+     | Some rows, Some [p1; g1; ld; p2; g2] -> b01 (dumps_are_rows p1 g1 rows && ld = "1" && p2 = p1 && g2 = g1)
+     | Some _, _ -> "0"
+     | None, _ -> "-")
   | "C14" -> b01 (try pred_c14 line spec ad flags steps impl with Failure _ -> false)
   | "C19" ->
     (* extracted Gallina: decision = per-definition semantics (c19_pred); a deviation is the known
